@@ -202,8 +202,15 @@ def build_ops(tier: str, seed: int) -> Tuple[List[Dict[str, Any]], List[Tuple]]:
             else:
                 base = codeccompose.assignments(rq, m, r, n=1)
                 assigns = list(base)
+                lkeys = [p["name"] for p in rq["params"] if p["p"] == "LENGTH-KEY"]
                 for b in base:
-                    muts = [mv for _, mv in c04.mutate_assignment(b, r) if isinstance(mv, dict)]
+                    # explicit length keys stay small: the lenient encoder allocates as many
+                    # bytes as an (absurd) explicit length asks for, which says nothing about
+                    # the flag and only exhausts the memory of the six children
+                    muts = [mv for _, mv in c04.mutate_assignment(b, r) if isinstance(mv, dict) and
+                            not any(isinstance(mv.get(k), (int, float)) and
+                                    not isinstance(mv.get(k), bool) and abs(mv[k]) > 4096
+                                    for k in lkeys)]
                     assigns += r.sample(muts, min(len(muts), 10))
             for a in assigns:
                 ops.append((li, rq["name"], "enc", a))
